@@ -7,15 +7,38 @@ INT, BOOL, REAL, STR = 'int', 'bool', 'real', 'str'
 
 class Sym:
     """A symbolic scalar: kind in {int,bool,real,str} with a z3 term."""
-    __slots__ = ('kind', 't', 'taint')
+    __slots__ = ('kind', 't', 'taint', 'parts')
 
-    def __init__(self, kind, t, taint=False):
+    def __init__(self, kind, t, taint=False, parts=None):
         self.kind = kind
         self.t = t
         self.taint = taint
+        self.parts = parts      # for strings: optional structure, list of str | Digits | OpaqueStr (see lib.py)
 
     def __repr__(self):
         return f'Sym<{self.kind}:{self.t}>'
+
+
+class Digits:
+    """String piece: decimal representation of n >= 0, zero-padded to at least `width` (only [0-9], non-empty)."""
+    __slots__ = ('n', 'width', 't')
+
+    def __init__(self, n, width, t):
+        self.n, self.width, self.t = n, width, t
+
+    def __repr__(self):
+        return f'Digits<{self.n},{self.width}>'
+
+
+class OpaqueStr:
+    """String piece of unknown content."""
+    __slots__ = ('t',)
+
+    def __init__(self, t):
+        self.t = t
+
+    def __repr__(self):
+        return f'OpaqueStr<{self.t}>'
 
 
 class SOpt:
